@@ -1098,6 +1098,10 @@ class Expression(Expr):
             if seq_get(expressions, index) is None:
                 return
 
+            if index < 0:
+                # the positions recorded on the children are absolute
+                index += len(expressions)
+
             if value is None:
                 expressions.pop(index)
                 for v in expressions[index:]:
